@@ -114,9 +114,9 @@ def run(chk):
     for it in range(N):
         n, m = gen.shape(rng, nmax, mmax)
         u_k = rng.random()
-        if u_k < 0.15:
+        if u_k < 0.2:
             n, m = max(n, 5), max(m, 4)          # room for several faint sensors among the ranked positions
-        B, kind = gen.matrix(rng, n, m, "faintrows" if u_k < 0.15 else ("commonmode" if u_k < 0.22 else None))
+        B, kind = gen.matrix(rng, n, m, "faintrows" if u_k < 0.2 else ("commonmode" if u_k < 0.27 else None))
         k = min(n, m)
         Bq = fr_mat(B)
         rankB = exact_rank(Bq)
